@@ -31,22 +31,24 @@ def _side(ctx, tag, with_bundle, U, hasdef=None, bmode=None):
     has_default = ctx.bool(tag + "hasdef") if hasdef is None else hasdef
     if has_default:
         d.set_default_namespace(ctx_u.str(tag + "du", U, 2, "uri"))
-        d.entity("e1", {"p:k": 1})
+        # prov:activity is a formal attribute of OTHER kinds: on an entity it is an ordinary extra attribute
+        d.entity("e1", {"p:k": 1, "prov:activity": "en:act"})
         d.usage("en:x", "e1")
     else:
-        d.entity("p:e1", {"p:k": 1})
-        d.usage("en:x", "p:e1")
+        d.entity("p:e1", {"p:k": 1, "prov:activity": "en:act"})
+        d.usage("en:x", "p:e1", None, None, {"prov:plan": "en:pl"})
     if with_bundle:
         b = d.bundle("en:" + ctx.str(tag + "bid", 1, 1, "name"))
-        mode = ctx.choose(tag + "bmode", 3) if bmode is None else bmode
+        mode = ctx.choose(tag + "bmode", 4) if bmode is None else bmode
         if mode == 0:  # bundle with its own default namespace
             b.set_default_namespace(ctx_u.str(tag + "bdu", U, 2, "uri"))
             b.entity("e1", {"p:k": 2})
         elif mode == 1:  # bundle re-declares prefix p for another URI (clashing prefix)
             b.add_namespace("p", ctx_u.str(tag + "bpu", U, 2, "uri"))
             b.entity("p:e1", {"p:k": 2})
-        else:  # bundle inherits everything from the document
-            b.entity("p:e1", {"en:k": 2})
+        elif mode == 2:  # bundle inherits everything from the document
+            b.entity("p:e1", {"en:k": 2, "prov:entity": "en:other"})
+        # mode 3: the bundle stays empty
     return d
 
 
@@ -195,12 +197,12 @@ def _shards(tier):
     final = []
     # pairwise-covering subset of (dhasdef, ohasdef, dbmode, obmode) for quick two-step sequences
     cover = [(False, False, 0, 0), (False, True, 1, 1), (True, False, 2, 2), (True, True, 0, 1), (False, False, 1, 2),
-             (False, True, 2, 0), (True, False, 1, 0)]
+             (False, True, 2, 0), (True, False, 1, 0), (False, False, 3, 3), (True, False, 3, 0), (False, True, 0, 3)]
     for sh in out:
         if sh["dbundle"] and (sh["obundle"] or len(sh["ops"]) > 1):
             full = tier == "thorough"
             if full:
-                combos = [(a, b, c, e) for a in (False, True) for b in (False, True) for c in range(3) for e in range(3)]
+                combos = [(a, b, c, e) for a in (False, True) for b in (False, True) for c in range(4) for e in range(4)]
             elif len(sh["ops"]) > 1:
                 combos = [x for x in cover if not (x[0] and x[1])]  # both-defaults only for single operations in quick
             else:
@@ -222,12 +224,12 @@ OBLIGATIONS = [
                desc="after every operation of a sequence over {flattened, update, add_bundle(bundle|document|refusal cases), bundle(id)} on two documents, "
                     "the multiset identities of the statement hold at URI level (strict content), refusals leave the target unchanged, "
                     "and the other document's content and namespaces are unchanged",
-               bounds={"quick": "sequences of 1-2 operations (structural choices of the two sides from a pairwise-covering set of 7 combinations when both have bundles); each document: 2 records (+ bundle with 1 record in 3 namespace modes: own default / clashing prefix p / inherited); "
+               bounds={"quick": "sequences of 1-2 operations (structural choices of the two sides from a pairwise-covering set of 7 combinations when both have bundles); each document: 2 records (+ bundle with 1 record in 3 namespace modes: own default / clashing prefix p / inherited, or an empty bundle); records carry extra attributes named like formal attributes of other kinds; "
                                 "first document: fixed URIs x:p / x:d / x:b / x:q; second document: symbolic default-namespace URI (present/absent), symbolic URI for prefix p and for its bundle (|uri|<=3, may coincide with the first document's), symbolic bundle identifier locals (|l|=1)",
                        "thorough": "as quick with |uri|<=4, both bundle configurations for pairs, and 4 sequences of 3 operations"},
                assumptions=["URIs have absolute-IRI shape; bundle identifier locals are single letters",
                             "stub: str(record) for logger.debug returns a constant"],
                functions=["prov.model.ProvDocument.flattened/update/add_bundle/bundle", "prov.model.ProvBundle.update/add_record/new_record",
                           "prov.model.NamespaceManager.valid_qualified_name/add_namespace ('dn' re-homing, clash renaming)"],
-               budget_s=(200, 900), per_path_s=(30, 60)),
+               budget_s=(300, 1200), per_path_s=(30, 60)),
 ]
